@@ -148,7 +148,14 @@ type hRDNSET []hATV
 func c15_arcsSx(o []int) Sx {
 	l := SL{}
 	for _, a := range o {
-		l = append(l, I(a))
+		if a < 0 || a >= 1<<62 {
+			// does not fit the driver's 63-bit integers: big-endian bytes
+			var b [8]byte
+			binary.BigEndian.PutUint64(b[:], uint64(a))
+			l = append(l, SB(b[:]))
+		} else {
+			l = append(l, I(a))
+		}
 	}
 	return l
 }
@@ -521,6 +528,312 @@ func c15_mutate(r *Rng, d []byte) []byte {
 	return d
 }
 
+// ---------- attribute types NEAR the table's OIDs ----------
+// A faster lookup than the dotted-string map (packed arcs, truncated arcs, prefix tries,
+// string keys built differently) can confuse an OID with a table entry.  c15NearOIDs lists,
+// for one OID, the neighbours such shortcuts could hit; the spec checker then requires that
+// a short name is printed for exactly the OID it stands for.  No randomness.
+
+type c15BigOID []*big.Int
+
+func c15Big(o []int) c15BigOID {
+	out := make(c15BigOID, len(o))
+	for i, a := range o {
+		out[i] = big.NewInt(int64(a))
+	}
+	return out
+}
+
+func (o c15BigOID) clone() c15BigOID {
+	out := make(c15BigOID, len(o))
+	for i, a := range o {
+		out[i] = new(big.Int).Set(a)
+	}
+	return out
+}
+
+func (o c15BigOID) String() string {
+	parts := make([]string, len(o))
+	for i, a := range o {
+		parts[i] = a.String()
+	}
+	return strings.Join(parts, ".")
+}
+
+// ints: the OID as asn1.ObjectIdentifier, when every arc fits a non-negative int
+func (o c15BigOID) ints() ([]int, bool) {
+	out := make([]int, len(o))
+	for i, a := range o {
+		if a.Sign() < 0 || !a.IsInt64() {
+			return nil, false
+		}
+		out[i] = int(a.Int64())
+	}
+	return out, true
+}
+
+// decodable: encoding/asn1 and crypto/x509 read it back (every sub-identifier below 2^31)
+func (o c15BigOID) decodable() bool {
+	if !o.encodable() {
+		return false
+	}
+	lim := big.NewInt(1<<31 - 1)
+	first := new(big.Int).Add(new(big.Int).Mul(o[0], big.NewInt(40)), o[1])
+	if first.Cmp(lim) > 0 {
+		return false
+	}
+	for _, a := range o[2:] {
+		if a.Cmp(lim) > 0 {
+			return false
+		}
+	}
+	return true
+}
+
+func (o c15BigOID) encodable() bool {
+	if len(o) < 2 {
+		return false
+	}
+	for _, a := range o {
+		if a.Sign() < 0 {
+			return false
+		}
+	}
+	if o[0].Cmp(big.NewInt(2)) > 0 {
+		return false
+	}
+	return o[0].Cmp(big.NewInt(2)) == 0 || o[1].Cmp(big.NewInt(40)) < 0
+}
+
+func c15Base128(n *big.Int) []byte {
+	if n.Sign() == 0 {
+		return []byte{0}
+	}
+	var rev []byte
+	x := new(big.Int).Set(n)
+	m := new(big.Int)
+	for x.Sign() > 0 {
+		x.DivMod(x, big.NewInt(128), m)
+		rev = append(rev, byte(m.Int64()))
+	}
+	out := make([]byte, len(rev))
+	for i := range rev {
+		out[i] = rev[len(rev)-1-i]
+		if i < len(rev)-1 {
+			out[i] |= 0x80
+		}
+	}
+	return out
+}
+
+// der encodes an encodable OID by hand (arcs of any size).
+func (o c15BigOID) der() []byte {
+	first := new(big.Int).Add(new(big.Int).Mul(o[0], big.NewInt(40)), o[1])
+	content := c15Base128(first)
+	for _, a := range o[2:] {
+		content = append(content, c15Base128(a)...)
+	}
+	return c15_derTLV(6, content)
+}
+
+func c15ParseDotted(s string) (c15BigOID, bool) {
+	var o c15BigOID
+	for _, p := range strings.Split(s, ".") {
+		if p == "" || (len(p) > 1 && p[0] == '0') {
+			return nil, false
+		}
+		n, ok := new(big.Int).SetString(p, 10)
+		if !ok {
+			return nil, false
+		}
+		o = append(o, n)
+	}
+	return o, true
+}
+
+func c15NearOIDs(base []int) []c15BigOID {
+	b := c15Big(base)
+	n := len(b)
+	seen := map[string]bool{b.String(): true}
+	var out []c15BigOID
+	add := func(o c15BigOID) {
+		for _, a := range o {
+			if a.Sign() < 0 {
+				return
+			}
+		}
+		k := o.String()
+		if len(o) == 0 || seen[k] {
+			return
+		}
+		seen[k] = true
+		out = append(out, o)
+	}
+	pow := func(e uint) *big.Int { return new(big.Int).Lsh(big.NewInt(1), e) }
+	mulAdd := func(x *big.Int, m *big.Int, k *big.Int) *big.Int {
+		return new(big.Int).Add(x, new(big.Int).Mul(m, k))
+	}
+	// (1) the same arcs modulo 2^8, 2^16, 2^31, 2^32, 2^63, 2^64 in each position (truncation)
+	for i := 0; i < n; i++ {
+		for _, e := range []uint{8, 16, 31, 32, 63, 64} {
+			o := b.clone()
+			o[i] = new(big.Int).Add(o[i], pow(e))
+			add(o)
+		}
+	}
+	// (2) arcs packed one field per arc: what position i loses, position j > i gains
+	//     (added: a.b.(c-k).(d+256k); or-ed: a.b.c.(d + 256c) and a.b.0.(d + 256c))
+	for i := 0; i < n; i++ {
+		for j := i + 1; j < n; j++ {
+			for _, w := range []uint{8, 16} {
+				m := pow(w * uint(j-i))
+				for _, k := range []*big.Int{big.NewInt(1), b[i]} {
+					if k.Sign() <= 0 || k.Cmp(b[i]) > 0 {
+						continue
+					}
+					o := b.clone()
+					o[i] = new(big.Int).Sub(o[i], k)
+					o[j] = mulAdd(o[j], m, k)
+					add(o)
+				}
+				o := b.clone()
+				o[j] = mulAdd(o[j], m, b[i])
+				add(o)
+			}
+		}
+	}
+	// (3) one arc fewer or more, in front and behind
+	add(b[:n-1].clone())
+	add(b[1:].clone())
+	for _, x := range []int64{0, 1, 2} {
+		add(append(b.clone(), big.NewInt(x)))
+		add(append(c15BigOID{big.NewInt(x)}, b.clone()...))
+	}
+	// (4) the same digits with the dots elsewhere (string-keyed lookups): one dot removed,
+	//     one dot inserted, one dot moved
+	dotted := b.String()
+	var texts []string
+	for i := 0; i < len(dotted); i++ {
+		if dotted[i] == '.' {
+			texts = append(texts, dotted[:i]+dotted[i+1:])
+		} else if i > 0 && dotted[i-1] != '.' {
+			texts = append(texts, dotted[:i]+"."+dotted[i:])
+		}
+	}
+	for _, t := range append([]string{}, texts...) {
+		for i := 0; i < len(t); i++ {
+			if t[i] == '.' {
+				texts = append(texts, t[:i]+t[i+1:])
+			} else if i > 0 && t[i-1] != '.' {
+				texts = append(texts, t[:i]+"."+t[i:])
+			}
+		}
+	}
+	texts = append(texts, dotted+"0", dotted+"00", "1"+dotted, dotted[:len(dotted)-1])
+	for _, t := range texts {
+		if o, ok := c15ParseDotted(t); ok {
+			add(o)
+		}
+	}
+	// (5) very large last arcs, and other first/second arcs (2.x with x >= 40 shares the
+	//     first sub-identifier with the arc that follows it in some decoders)
+	for _, v := range []*big.Int{pow(31), new(big.Int).Sub(pow(31), big.NewInt(1)), new(big.Int).Sub(pow(32), big.NewInt(1)),
+		new(big.Int).Sub(pow(62), big.NewInt(1)), pow(62), new(big.Int).Sub(pow(63), big.NewInt(1)),
+		mulAdd(b[n-1], pow(64), big.NewInt(3)), mulAdd(b[n-1], pow(128), big.NewInt(1))} {
+		o := b.clone()
+		o[n-1] = v
+		add(o)
+	}
+	if n >= 2 {
+		for _, x := range []int64{39, 40, 45, 47, 48, 85, 128, 133, 261} {
+			o := b.clone()
+			o[1] = new(big.Int).Add(big.NewInt(x), big.NewInt(0))
+			add(o)
+			o = b.clone()
+			o[1] = new(big.Int).Add(o[1], big.NewInt(x))
+			add(o)
+		}
+		for _, x := range []int64{0, 1} {
+			o := b.clone()
+			o[0] = big.NewInt(x)
+			add(o)
+		}
+	}
+	return out
+}
+
+func c15TableOID(row [2]string) []int {
+	var o []int
+	for _, p := range strings.Split(row[0], ".") {
+		var n int
+		fmt.Sscanf(p, "%d", &n)
+		o = append(o, n)
+	}
+	return o
+}
+
+// nearCases emits the neighbours of one table OID through dn (every neighbour whose arcs are
+// Go ints), rawdn (every encodable neighbour; those the library can decode packed [pack] to a
+// name, the others, when [big], one by one: the library refuses them and the whole name is
+// shown in hex) and, when [certs], cert.
+func (g *c15Gen) nearCases(tag string, base []int, pack int, certs, big bool) {
+	val := strTLV(tagPrintable, "v")
+	var dnBatch pkix.RDNSequence
+	var rawBatch [][]c15ATVRaw
+	flushDN := func() {
+		if len(dnBatch) > 0 {
+			g.emitDN(tag, dnBatch)
+			dnBatch = nil
+		}
+	}
+	flushRaw := func() {
+		if len(rawBatch) > 0 {
+			d := dnDERRaw(rawBatch)
+			g.emitRaw(tag, d)
+			if certs {
+				g.emitCert(tag, d, d)
+			}
+			rawBatch = nil
+		}
+	}
+	for _, o := range c15NearOIDs(base) {
+		if ints, ok := o.ints(); ok {
+			dnBatch = append(dnBatch, pkix.RelativeDistinguishedNameSET{{Type: ints, Value: "v"}})
+			if len(dnBatch) >= pack {
+				flushDN()
+			}
+		}
+		if o.decodable() {
+			rawBatch = append(rawBatch, []c15ATVRaw{{o.der(), val}})
+			if len(rawBatch) >= pack {
+				flushRaw()
+			}
+		} else if big && o.encodable() {
+			// an arc the library refuses: the name as a whole is then shown in hex
+			g.emitRaw(tag+"-big", dnDERRaw([][]c15ATVRaw{{{o.der(), val}}}))
+		}
+	}
+	flushDN()
+	flushRaw()
+}
+
+type c15ATVRaw struct {
+	oidDER []byte
+	val    []byte
+}
+
+func dnDERRaw(rdns [][]c15ATVRaw) []byte {
+	var seq []byte
+	for _, r := range rdns {
+		var set []byte
+		for _, a := range r {
+			set = append(set, c15_derTLV(0x30, append(append([]byte{}, a.oidDER...), a.val...))...)
+		}
+		seq = append(seq, c15_derTLV(0x31, set)...)
+	}
+	return c15_derTLV(0x30, seq)
+}
+
 func genC15(c *Ctx) {
 	g := &c15Gen{c: c, table: names.VerifX500AttrTypes()}
 	r := c.R
@@ -535,6 +848,17 @@ func genC15(c *Ctx) {
 	// F31: 2.5.4.95 and 2.5.4.96 were both shown as "ldapUrl"
 	g.emitRaw("corpus", dnDER(single([]int{2, 5, 4, 95}, strTLV(tagUTF8, "x"))))
 	g.emitRaw("corpus", dnDER(single([]int{2, 5, 4, 96}, strTLV(tagUTF8, "x"))))
+	// round 2 (seeded change): a lookup keyed by the arcs packed one octet per arc showed
+	// 2.5.0.1027 and 2.1.4.262147 as "CN", 2.5.0.1034 as "O"
+	for _, o := range [][]int{{2, 5, 0, 1027}, {2, 1, 4, 262147}, {2, 5, 0, 1034}} {
+		g.emitDN("corpus", pkix.RDNSequence{{{Type: o, Value: "v"}}})
+		d := dnDER(single(o, strTLV(tagPrintable, "v")))
+		g.emitRaw("corpus", d)
+		g.emitCert("corpus", d, d)
+	}
+	// the neighbours of CN and O, one per case
+	g.nearCases("near-corpus", cn, 1, false, true)
+	g.nearCases("near-corpus", org, 1, false, false)
 	// F37: NUL written raw
 	g.emitEscape("corpus", "\x00")
 	g.emitRaw("corpus", dnDER(single(cn, strTLV(tagUTF8, "a\x00b"))))
@@ -639,6 +963,14 @@ func genC15(c *Ctx) {
 		}
 		g.emitRaw("table", dnDER(single(o, strTLV(tagPrintable, "v"))))
 	}
+	// ---- every table OID's neighbours (see c15NearOIDs), packed 8 to a name; through cert
+	//      for every 4th row (all rows in the thorough tier) ----
+	for i, t := range g.table {
+		g.nearCases("near", c15TableOID(t), 8, c.Thorough() || i%4 == 0, c.Thorough() || i%16 == 0)
+	}
+	// and of two OIDs outside the table (RFC 4514's DC and a five-arc OID)
+	g.nearCases("near", []int{0, 9, 2342, 19200300, 100, 1, 25}, 8, true, true)
+	g.nearCases("near", []int{2, 5, 4, 3, 1}, 8, true, false)
 	for i := 0; i < 500*scale; i++ {
 		d := dnDER(g.randName(r.Intn(4) == 0, specials))
 		for k := 1 + r.Intn(3); k > 0; k-- {
